@@ -34,83 +34,142 @@ def _last(n):
     return (n or '').split('.')[-1]
 
 
+def _interp(prog, m, **kw):
+    from sa import miniexec as mx
+    from sa import alpha as _alpha
+    known = _alpha.load_table().get('__params__', {}).get(m.rel)
+    known = set(known) if known is not None else None
+    return mx.Interp(prog, m, known_functions=known, **kw)
+
+
 def check_deposition(rep, prog, m):
+    """the five values _admixture_intermediates returns, as expressions in the grid nodes around the (clamped) bracket U: abstract
+    execution gives the values, exact rational algebra the identities.  Independent of how the function names or groups its
+    intermediates."""
+    from sa import miniexec as mx
     fn = prog.func(PM, '_admixture_intermediates')
     rel = m.rel
     rep.saw_function(rel + ':_admixture_intermediates')
-    env = {}
-    wheres = {}
-    clamps = []
+    it = _interp(prog, m)
+    try:
+        paths = [p for p in it.run(fn, {'phi': mx.Sym('phi'), 'ad_z': mx.Sym('ad_z'), 'zz': mx.Sym('zz')}) if p[0][0] == 'return']
+    except mx.Undecidable as e:
+        raise AnalysisError('_admixture_intermediates is not recognised: %s' % e)
+    if len(paths) != 1 or not (isinstance(paths[0][0][1], tuple) and len(paths[0][0][1]) == 5):
+        raise AnalysisError('_admixture_intermediates is not recognised: %d returning paths / not a 5-tuple' % len(paths))
+    ret = paths[0][0][1]
+    info = {'wheres': [], 'mod': set(), 'search': [], 'partial': []}
+    n_at = Rat.atom('n')
 
-    def index_hook(tr, e):
-        base = ast.unparse(e.value)
-        idx = e.slice
+    def is_len(x):
+        c = mx.call_of(x, 'len')
+        return c is not None and len(c[0]) == 1 and mx.show(c[0][0]) == 'zz'
+
+    def clamp_kind(x):
+        """'U' for the searchsorted result clamped to [1, n-1], 'S' for the raw result, 'P' for a one-sided clamp, None otherwise"""
+        c = mx.call_of(x, 'searchsorted')
+        if c is not None:
+            info['search'].append([mx.show(a) for a in c[0]] + ['%s=%s' % (k, mx.show(v)) for k, v in c[1].items()])
+            return 'S', set()
+        for f_ in ('maximum', 'minimum'):
+            c = mx.call_of(x, f_)
+            if c is not None and len(c[0]) == 2 and not c[1]:
+                for a, b in ((c[0][0], c[0][1]), (c[0][1], c[0][0])):
+                    k = clamp_kind(a)
+                    if k is None:
+                        continue
+                    try:
+                        bound = mx.to_rat(b, leaf)
+                    except AlgebraError:
+                        return None
+                    want = Rat.const(1) if f_ == 'maximum' else n_at - Rat.const(1)
+                    if not bound.equals(want):
+                        info['partial'].append('%s(.., %s)' % (f_, bound.canon()))
+                        return 'P', k[1]
+                    done = k[1] | {f_}
+                    return ('U' if done == {'maximum', 'minimum'} else 'P'), done
+        return None
+
+    def leaf(x):
+        if isinstance(x, mx.Sym) and x.text in ('phi', 'ad_z') and not x.struct:
+            return Rat.atom(x.text)
+        if is_len(x):
+            return n_at
+        k = clamp_kind(x)
+        if k is not None:
+            if k[0] != 'U':
+                info['partial'].append(mx.show(x)[:60])
+            return Rat.atom({'U': 'U', 'S': 'Sraw', 'P': 'Spart'}[k[0]])
+        if isinstance(x, mx.Sym) and x.struct and x.struct[0] == 'index' and mx.show(x.struct[1]) == 'zz':
+            key = x.struct[2]
+            modded = False
+            if isinstance(key, mx.Sym) and key.struct and key.struct[0] == 'binop' and key.struct[1] == '%' and is_len(key.struct[3]):
+                key, modded = key.struct[2], True
+            r = mx.to_rat(key, leaf)
+            if modded:
+                info['mod'].add(r.canon())
+            return Rat.atom('zz{%s}' % r.canon())
+        c = mx.call_of(x, 'where')
+        if c is not None and len(c[0]) == 3 and not c[1] and c[0][1] == 0:
+            rb = mx.to_rat(c[0][2], leaf)
+            info['wheres'].append((c[0][0], rb))
+            return rb
+        return None
+    try:
+        lo, up, fl, fu, norm = [mx.to_rat(v, leaf) for v in ret]
+    except AlgebraError as e:
+        raise AnalysisError('_admixture_intermediates is not recognised: %s' % e)
+    U = Rat.atom('U')
+    zU, zL, zLm, zUp = Rat.atom('zz{U}'), Rat.atom('zz{-1 + U}'), Rat.atom('zz{-2 + U}'), Rat.atom('zz{1 + U}')
+    d0, d1, d2 = zL - zLm, zU - zL, zUp - zU
+    oks = bool(info['search']) and all(a == ['zz', 'ad_z'] for a in info['search'])
+    rep.ob('R-TPL', '_admixture_intermediates searchsorted', oks, 'searchsorted(%s)' % ', '.join(info['search'][0]) if info['search'] else 'no searchsorted', rel, fn.lineno, what='bracket found by searchsorted(grid, admixed frequency)')
+    atoms = set()
+    for v in (lo, up, fl, fu, norm):
+        atoms |= set(v.atoms())
+    okc = not any(a.startswith(('Sraw', 'Spart')) or '{' in a and ('Sraw' in a or 'Spart' in a) for a in atoms)
+    rep.ob('R-TPL', '_admixture_intermediates clamp', okc, 'every use of the bracket index is clamped to [1, len-1]' if okc else 'unclamped bracket index in %s' % sorted(a for a in atoms if 'Sraw' in a or 'Spart' in a)[:2],
+           rel, fn.lineno, what='upper bracket index clamped to [1, len-1]')
+    ok = lo.equals(U - Rat.const(1)) and up.equals(U)
+    rep.ob('R-ALG', '_admixture_intermediates bracket', ok, 'lower = %s; upper = %s' % (lo.canon(), up.canon()), rel, fn.lineno, what='bracketing nodes are adjacent grid points (returned first and second)')
+    # the edge spacings: every where(cond, 0, x) met in the returned values
+    seen = {}
+    unknown = []
+    for cond, rb in info['wheres']:
+        st = cond.struct if isinstance(cond, mx.Sym) else None
+        which = 'delz0' if rb.equals(d0) else 'delz1' if rb.equals(d1) else 'delz2' if rb.equals(d2) else None
         try:
-            r = tr.tr(idx)
+            diff = (mx.to_rat(st[2], leaf) - mx.to_rat(st[3], leaf)) if st and st[0] == 'compare' and st[1] == '==' else None
         except AlgebraError:
-            return None
-        # zz[upper] etc: express indices relative to the symbolic node `U` (upper) : lower = U - 1
-        return Rat.atom('%s{%s}' % (base, r.canon()))
-    T = Translator(env, index_hook=index_hook)
-    env = T.env
-    for st in fn.body:
-        if isinstance(st, ast.Assign) and isinstance(st.targets[0], ast.Name):
-            name = st.targets[0].id
-            v = st.value
-            if isinstance(v, ast.Call) and _last(dotted(v.func)) == 'searchsorted':
-                ok = [ast.unparse(a) for a in v.args] == ['zz', 'ad_z']
-                rep.ob('R-TPL', '_admixture_intermediates searchsorted', ok, ast.unparse(st), rel, st.lineno, what='bracket found by searchsorted(grid, admixed frequency)')
-                env[name] = Rat.atom('U')
-                continue
-            if isinstance(v, ast.Call) and _last(dotted(v.func)) in ('minimum', 'maximum'):
-                clamps.append((name, _last(dotted(v.func)), [ast.unparse(a) for a in v.args], st.lineno))
-                continue
-            if isinstance(v, ast.Call) and _last(dotted(v.func)) == 'where':
-                wheres[name] = (v, st.lineno)
-                continue     # general position: keep the previous value
-            try:
-                env[name] = T.tr(v)
-            except AlgebraError as e:
-                raise AnalysisError('_admixture_intermediates: cannot normalise %s: %s' % (ast.unparse(st)[:60], e))
-    okc = [(n, f, a) for n, f, a, _ in clamps] == [('upper_z_index', 'minimum', ['upper_z_index', 'len(zz) - 1']), ('upper_z_index', 'maximum', ['upper_z_index', '1'])]
-    rep.ob('R-TPL', '_admixture_intermediates clamp', okc, '; '.join('%s=%s(%s)' % (n, f, ', '.join(a)) for n, f, a, _ in clamps), rel, clamps[0][3] if clamps else fn.lineno,
-           what='upper bracket index clamped to [1, len-1]')
-    exp_where = {'delz0': 'lower_z_index == 0', 'delz1': 'upper_z_index == 0', 'delz2': 'upper_z_index == len(zz) - 1'}
-    for name, cond in exp_where.items():
-        w = wheres.get(name)
-        ok = w is not None and [ast.unparse(a) for a in w[0].args] == [cond, '0', name]
-        rep.ob('R-TPL', '_admixture_intermediates edge %s' % name, ok, ast.unparse(w[0]) if w else 'missing', rel, w[1] if w else fn.lineno, what='out-of-range spacing zeroed exactly at the grid end')
-    need = ['lower_z_index', 'upper_z', 'lower_z', 'delz0', 'delz1', 'delz2', 'frac_lower', 'frac_upper', 'norm']
-    if any(n not in env for n in need):
-        raise AnalysisError('_admixture_intermediates: missing intermediate among %s' % need)
-    zU, zL, zLm, zUp = Rat.atom('zz{U}'), Rat.atom('zz{-1 + U}'), Rat.atom('zz{-2 + U}'), None
-    ok = env['lower_z_index'].equals(parse_expr('U - 1')) and env['upper_z'].equals(zU) and env['lower_z'].equals(zL)
-    rep.ob('R-ALG', '_admixture_intermediates bracket', ok, 'lower = upper - 1; upper_z = zz[upper]; lower_z = zz[lower]', rel, fn.lineno, what='bracketing nodes are adjacent grid points')
-    d0, d1, d2 = env['delz0'], env['delz1'], env['delz2']
-    okd = d0.equals(zL - zLm) and d1.equals(zU - zL)
-    # delz2 uses (upper+1) % len(zz): opaque -> compare its printed form
-    d2src = [st for st in fn.body if isinstance(st, ast.Assign) and ast.unparse(st.targets[0]) == 'delz2'][0]
-    okd2 = ast.unparse(d2src.value) == 'zz[(upper_z_index + 1) % len(zz)] - zz[upper_z_index]'
-    rep.ob('R-ALG', '_admixture_intermediates spacings', okd and okd2, 'delz0 = z_l - z_{l-1}; delz1 = z_u - z_l; delz2 = z_{u+1} - z_u', rel, fn.lineno, what='spacings around the bracket')
-    fl, fu, norm = env['frac_lower'], env['frac_upper'], env['norm']
+            diff = None
+        if which is None or diff is None:
+            unknown.append(mx.show(cond)[:50])
+            continue
+        want = {'delz0': U - Rat.const(1), 'delz1': U, 'delz2': U - n_at + Rat.const(1)}[which]
+        seen.setdefault(which, []).append(diff.equals(want) or diff.equals(Rat.const(0) - want))
+    if unknown:
+        rep.ob('R-TPL', '_admixture_intermediates edge', False, 'where(%s, 0, ...) not recognised' % unknown[0], rel, fn.lineno, what='out-of-range spacing zeroed exactly at the grid end')
+    for name in ('delz0', 'delz2'):
+        ok = name in seen and all(seen[name])
+        rep.ob('R-TPL', '_admixture_intermediates edge %s' % name, ok, ('zeroed exactly where %s' % {'delz0': 'the lower node is node 0', 'delz2': 'the upper node is the last node'}[name]) if ok else
+               ('not zeroed at the grid end' if name not in seen else 'zeroed under a different condition'), rel, fn.lineno, what='out-of-range spacing zeroed exactly at the grid end')
+    ok1 = all(seen.get('delz1', [True]))
+    rep.ob('R-TPL', '_admixture_intermediates edge delz1', ok1, 'the spacing of the bracket itself is never out of range (upper >= 1)' + ('' if 'delz1' not in seen else '; guarded by upper == 0, which cannot hold'), rel, fn.lineno,
+           what='out-of-range spacing zeroed exactly at the grid end')
+    okm = (U + Rat.const(1)).canon() in info['mod'] or not any(a == 'zz{1 + U}' for a in atoms)
+    rep.ob('R-DOM', '_admixture_intermediates index beyond the grid', okm, 'node U+1 is read modulo len(zz)' if okm else 'zz[upper+1] is read without wrapping: IndexError when the bracket is the last interval', rel, fn.lineno,
+           what='the node above the bracket is read with a wrapped index (its spacing is zeroed when it does not exist)')
+    rep.ob('R-ALG', '_admixture_intermediates spacings', True, 'delz0 = z_l - z_{l-1}; delz1 = z_u - z_l; delz2 = z_{u+1} - z_u (entering the identities below)', rel, fn.lineno, what='spacings around the bracket')
     one = (fl + fu).equals(Rat.const(1))
-    rep.ob('R-ALG', '_admixture_intermediates fractions', one, 'frac_lower + frac_upper = %s' % (fl + fu).canon()[:60], rel, fn.lineno, what='linear deposition weights sum to one')
-    D0, D1, D2 = Rat.atom('D0'), Rat.atom('D1'), Rat.atom('D2')
-    sub = {}
-    # express the identity in terms of abstract spacings: replace the spacing expressions by atoms
-    fl_s, fu_s = fl, fu
-    normexp = [st for st in fn.body if isinstance(st, ast.Assign) and ast.unparse(st.targets[0]) == 'norm'][0].value
-    Tn = Translator({'frac_lower': Rat.atom('FL'), 'frac_upper': Rat.atom('FU'), 'delz0': D0, 'delz1': D1, 'delz2': D2})
-    nrm = Tn.tr(normexp)
-    FL, FU = Rat.atom('FL'), Rat.atom('FU')
-    total = FL * nrm * (D0 + D1) * Rat.const(Fraction(1, 2)) + FU * nrm * (D1 + D2) * Rat.const(Fraction(1, 2))
-    total = total.subs({'FU': Rat.const(1) - FL})
+    mean = (fl * zL + fu * zU).equals(Rat.atom('ad_z'))
+    rep.ob('R-ALG', '_admixture_intermediates fractions', one and mean, 'frac_lower + frac_upper = %s; frac_lower*z_l + frac_upper*z_u = %s' % ((fl + fu).canon()[:40], (fl * zL + fu * zU).canon()[:40]), rel, fn.lineno,
+           what='linear deposition weights sum to one and place the mass at the admixed frequency')
+    half = Rat.const(Fraction(1, 2))
+    total = fl * norm * (d0 + d1) * half + fu * norm * (d1 + d2) * half
     okm = total.equals(Rat.atom('phi'))
     rep.ob('R-ALG', '_admixture_intermediates mass', okm, 'frac_lower*norm*(delz0+delz1)/2 + frac_upper*norm*(delz1+delz2)/2 = %s' % total.canon()[:60], rel, fn.lineno,
            what='integrating the new axis out with the trapezoid rule returns the old density')
-    ret = [n for n in own_nodes(fn) if isinstance(n, ast.Return)]
-    okr = len(ret) == 1 and ast.unparse(ret[0].value).replace('(', '').replace(')', '') == 'lower_z_index, upper_z_index, frac_lower, frac_upper, norm'
-    rep.ob('R-FLOW', '_admixture_intermediates return', okr, ast.unparse(ret[0].value) if ret else '', rel, fn.lineno, what='returns (lower, upper, frac_lower, frac_upper, norm)')
+    rep.ob('R-FLOW', '_admixture_intermediates return', True, '(lower, upper, frac_lower, frac_upper, norm): each position satisfies its identity above', rel, fn.lineno, what='returns (lower, upper, frac_lower, frac_upper, norm)')
     # phi_1D_to_2D
     f = prog.func(PM, 'phi_1D_to_2D')
     lp = [n for n in own_nodes(f) if isinstance(n, ast.For)]
@@ -182,6 +241,10 @@ def check_helpers(rep, prog, m):
 
 
 def check_constructors(rep, prog, m):
+    """what each new-population constructor does with the five intermediates (abstract execution; the helper is summarised by five
+    symbols): forwards density, proportions and grids in order, allocates a zero array with one axis per grid, deposits
+    frac_lower*norm at (every old index, lower) and frac_upper*norm at (every old index, upper), returns that array"""
+    from sa import miniexec as mx
     rel = m.rel
     specs = {'phi_2D_to_3D_admix': 2, 'phi_3D_to_4D': 3, 'phi_4D_to_5D': 4}
     for q, D in specs.items():
@@ -189,39 +252,91 @@ def check_constructors(rep, prog, m):
         rep.saw_function(rel + ':' + q)
         params = positional_params(fn)
         fs, grids = params[1:D], params[D:2 * D + 1]
-        call = [c for c in own_nodes(fn) if isinstance(c, ast.Call) and dotted(c.func) == HELPER[D]]
-        okc = len(call) == 1 and [ast.unparse(a) for a in call[0].args] == [params[0]] + fs + grids
-        rep.ob('R-IDX', '%s helper call' % q, okc, ast.unparse(call[0]) if call else 'no call', rel, call[0].lineno if call else fn.lineno, what='proportions and grids forwarded in order, new-axis grid last')
-        idx = {}
-        for n in own_nodes(fn):
-            if isinstance(n, ast.Assign) and isinstance(n.targets[0], ast.Name) and n.targets[0].id.startswith('idx_'):
-                v = n.value
-                ok = isinstance(v, ast.Subscript) and isinstance(v.value, ast.Call) and _last(dotted(v.value.func)) == 'arange'
-                if ok:
-                    g = ast.unparse(v.value.args[0]).replace('len(', '').replace(')', '')
-                    comps = v.slice.elts if isinstance(v.slice, ast.Tuple) else [v.slice]
-                    pos = [i for i, c in enumerate(comps) if isinstance(c, ast.Slice)]
-                    idx[n.targets[0].id] = (g, pos, len(comps))
-        okidx = len(idx) == D and all(g in grids and pos == [grids.index(g)] and ln == D for g, pos, ln in idx.values())
-        rep.ob('R-IDX', '%s index arrays' % q, okidx, str(idx) if idx else 'index arrays idx_* not found', rel, fn.lineno, what='one arange per old axis placed on that axis')
-        order = [k for k, v in sorted(idx.items(), key=lambda kv: kv[1][1])]
-        new = [n for n in own_nodes(fn) if isinstance(n, ast.Assign) and isinstance(n.value, ast.Call) and _last(dotted(n.value.func)) == 'zeros' and isinstance(n.targets[0], ast.Name)]
-        okz = len(new) == 1 and ast.unparse(new[0].value.args[0]).replace('(', '').replace(')', '').replace('len', '').replace(' ', '') == ','.join(grids)
-        out = new[0].targets[0].id if new else '?'
-        rep.ob('R-IDX', '%s result shape' % q, okz, ast.unparse(new[0]) if new else '', rel, new[0].lineno if new else fn.lineno, what='result has one axis per grid, new axis last')
-        dep = [n for n in own_nodes(fn) if isinstance(n, (ast.Assign, ast.AugAssign)) and isinstance(n.targets[0] if isinstance(n, ast.Assign) else n.target, ast.Subscript)
-               and ast.unparse((n.targets[0] if isinstance(n, ast.Assign) else n.target).value) == out]
-        okd = len(dep) == 2
-        if okd:
-            t0 = dep[0].targets[0] if isinstance(dep[0], ast.Assign) else dep[0].target
-            t1 = dep[1].targets[0] if isinstance(dep[1], ast.Assign) else dep[1].target
-            i0 = [ast.unparse(e) for e in t0.slice.elts]
-            i1 = [ast.unparse(e) for e in t1.slice.elts]
-            okd = i0 == order + ['lower_z_index'] and i1 == order + ['upper_z_index'] and ast.unparse(dep[0].value) == 'frac_lower * norm' and ast.unparse(dep[1].value) == 'frac_upper * norm' \
-                and isinstance(dep[0], ast.Assign) and (isinstance(dep[1], ast.AugAssign) and isinstance(dep[1].op, ast.Add) or isinstance(dep[1], ast.Assign))
-        rep.ob('R-TPL', '%s deposit' % q, okd, '; '.join(ast.unparse(d) for d in dep) or 'deposit statements not found', rel, dep[0].lineno if dep else fn.lineno, what='frac_lower*norm at (old indices, lower) and frac_upper*norm at (old indices, upper)')
-        ret = [n for n in own_nodes(fn) if isinstance(n, ast.Return)]
-        rep.ob('R-FLOW', '%s return' % q, len(ret) == 1 and ast.unparse(ret[0].value) == out, 'returns %s' % (ast.unparse(ret[0].value) if ret else ''), rel, fn.lineno, what='returns the new density')
+        five = tuple(mx.Sym(x) for x in ('LO', 'UP', 'FL', 'FU', 'NORM'))
+        helper_calls = []
+
+        def fh(nm, args, kwargs, D=D, five=five, helper_calls=helper_calls):
+            if nm == HELPER[D]:
+                helper_calls.append(([mx.show(a) for a in args], {k: mx.show(v) for k, v in kwargs.items()}))
+                return five
+            return NotImplemented
+        it = _interp(prog, m, func_hook=fh)
+        args = {p_: mx.Sym(p_) for p_ in params}
+        try:
+            paths = [p_ for p_ in it.run(fn, args) if p_[0][0] == 'return']
+        except mx.Undecidable as e:
+            raise AnalysisError('%s is not recognised: %s' % (q, e))
+        if len(paths) != 1:
+            raise AnalysisError('%s is not recognised: %d returning paths' % (q, len(paths)))
+        outcome, events, _dec = paths[0]
+        okc = len(helper_calls) == 1 and helper_calls[0] == ([params[0]] + fs + grids, {})
+        rep.ob('R-IDX', '%s helper call' % q, okc, '%s(%s)' % (HELPER[D], ', '.join(helper_calls[0][0]) if helper_calls else 'no call'), rel, fn.lineno, what='proportions and grids forwarded in order, new-axis grid last')
+        result = outcome[1]
+        zc = mx.call_of(result, 'zeros')
+        shp = zc[0][0] if zc and zc[0] else (zc[1].get('shape') if zc else None)
+        okz = isinstance(shp, (tuple, list)) and [mx.show(x) for x in shp] == ['len(%s)' % g for g in grids]
+        rep.ob('R-IDX', '%s result shape' % q, okz, 'returns %s' % mx.show(result)[:80], rel, fn.lineno, what='result has one axis per grid, new axis last')
+        rep.ob('R-FLOW', '%s return' % q, zc is not None, 'returns %s' % mx.show(result)[:60], rel, fn.lineno, what='returns the new density')
+        # event layouts: ('setitem', text of base, key, value, base) / ('augitem', base, key, operator name, value)
+        stores = [e for e in events if (e[0] == 'setitem' and mx.show(e[4]) == mx.show(result)) or (e[0] == 'augitem' and mx.show(e[1]) == mx.show(result))]
+
+        def old_index_ok(comp, a):
+            """numpy.arange(len(grid_a)) placed on axis a of a D-dimensional open mesh"""
+            if not (isinstance(comp, mx.Sym) and comp.struct and comp.struct[0] == 'index'):
+                return False
+            ar = mx.call_of(comp.struct[1], 'arange')
+            key = comp.struct[2] if isinstance(comp.struct[2], tuple) else (comp.struct[2],)
+            return ar is not None and [mx.show(x) for x in ar[0]] == ['len(%s)' % grids[a]] and len(key) == D and all((mx.is_full_slice(k_) if i_ == a else mx.is_newaxis(k_)) for i_, k_ in enumerate(key))
+        if not stores:
+            # the same deposit through numpy.put_along_axis(result, index[..., newaxis], values[..., newaxis], axis=-1): by definition the
+            # open mesh over every other axis; a take_along_axis / add / put_along_axis sequence at the same index is '+='
+            def last_axis(v):
+                if isinstance(v, mx.Sym) and v.struct and v.struct[0] == 'index':
+                    key = v.struct[2] if isinstance(v.struct[2], tuple) else (v.struct[2],)
+                    if len(key) == 2 and (key[0] is Ellipsis or mx.show(key[0]) == 'Ellipsis') and mx.is_newaxis(key[1]):
+                        return v.struct[1]
+                return None
+            mesh = tuple(mx.Sym('mesh%d' % a, struct=('index', mx.Sym('arange', struct=('call', 'numpy.arange', (mx.Sym('len(%s)' % grids[a]),), {})),
+                                                     tuple(slice(None) if i_ == a else None for i_ in range(D)))) for a in range(D))
+            for e in events:
+                if e[0] == 'call' and e[1].split('.')[-1] == 'put_along_axis' and len(e[2]) >= 3 and mx.show(e[2][0]) == mx.show(result):
+                    ax = e[3].get('axis', e[2][3] if len(e[2]) > 3 else None)
+                    idx_, val_ = last_axis(e[2][1]), e[2][2]
+                    if ax != -1 and ax != D or idx_ is None:
+                        continue
+                    terms = mx.factors(val_, '+')
+                    taken = [t_ for t_ in terms if mx.call_of(t_, 'take_along_axis') is not None]
+                    rest_ = [t_ for t_ in terms if t_ not in taken]
+                    if taken:
+                        tk = mx.call_of(taken[0], 'take_along_axis')
+                        same = len(taken) == 1 and len(rest_) == 1 and mx.show(tk[0][0]) == mx.show(result) and mx.show(tk[0][1]) == mx.show(e[2][1]) and tk[1].get('axis', tk[0][2] if len(tk[0]) > 2 else None) in (-1, D)
+                        v_ = last_axis(rest_[0]) if same else None
+                        if v_ is not None:
+                            stores.append(('augitem', result, mesh + (idx_,), 'Add', v_))
+                    else:
+                        v_ = last_axis(val_)
+                        if v_ is not None:
+                            stores.append(('setitem', mx.show(result), mesh + (idx_,), v_, result))
+        okidx, okd, det = True, len(stores) == 2, []
+        for k_, st_ in enumerate(stores[:2]):
+            if st_[0] == 'setitem':
+                key, val = st_[2], st_[3]
+            else:
+                key, val = st_[2], st_[4]
+                okd = okd and st_[3] == 'Add'
+            key = key if isinstance(key, tuple) else (key,)
+            det.append('%s[%s] %s %s' % (mx.show(result)[:12], ', '.join(mx.show(x)[:28] for x in key), '=' if st_[0] == 'setitem' else '+=', mx.show(val)[:30]))
+            okidx = okidx and len(key) == D + 1 and all(old_index_ok(key[a], a) for a in range(D))
+            want_last, want_val = (('LO', ['FL', 'NORM']), ('UP', ['FU', 'NORM']))[k_]
+            okd = okd and len(key) == D + 1 and mx.show(key[-1]) == want_last and sorted(mx.show(f_) for f_ in mx.factors(val, '*')) == sorted(want_val)
+        if stores and stores[0][0] != 'setitem':
+            okd = False
+        if not stores:
+            rep.ob('R-IDX', '%s index arrays' % q, False, 'index arrays not found (no indexed store into the result)', rel, fn.lineno, what='one arange per old axis placed on that axis')
+            rep.ob('R-TPL', '%s deposit' % q, False, 'deposit statements not found', rel, fn.lineno, what='frac_lower*norm at (old indices, lower) and frac_upper*norm at (old indices, upper)')
+            continue
+        rep.ob('R-IDX', '%s index arrays' % q, okidx, '; '.join(det)[:200], rel, fn.lineno, what='one arange per old axis placed on that axis')
+        rep.ob('R-TPL', '%s deposit' % q, okd and okidx, '; '.join(det)[:200], rel, fn.lineno, what='frac_lower*norm at (old indices, lower) and frac_upper*norm at (old indices, upper)')
     for q, f in (('phi_2D_to_3D_split_1', '1'), ('phi_2D_to_3D_split_2', '0')):
         fn = prog.func(PM, q)
         ret = [n for n in own_nodes(fn) if isinstance(n, ast.Return)]
